@@ -371,3 +371,164 @@ Proof.
       * unfold Wr.m_ret at 1. cbv beta iota. wrapper_fit_tail.
   - unfold Wr.m_ret at 1. cbv beta iota. unfold Wr.m_ret at 1. cbv beta iota. wrapper_fit_tail.
 Qed.
+
+(* ---- the delegating queries: check_fit first, then self._instance.<name> ---- *)
+Lemma setu_instance_same : forall u s, u_instance u = Some s -> setu_instance (Some s) u = u.
+Proof. intros [c r ss f i st0] s H. cbn in H. subst i. reflexivity. Qed.
+
+(* [ok_on u I name k]: on the instance the wrapper holds, the class-level method i_query I name is the model's query k *)
+Definition ok_on (u : uinst) (I : inst_impl) (name : string) (k : qkind) : Prop :=
+  forall s n g, u_instance u = Some s -> run_q (py_call_query name (i_query I name)) s g = query_scipy s k n g.
+
+Lemma wrapper_delegate : forall I name k u n g, ok_on u I name k ->
+  wrun_q (Wr.m_seq Wr.gen_Univariate_check_fit (Wr.py_instance_query I name)) u g = query_wrapper u k n g.
+Proof.
+  intros I name k u n g H. unfold wrun_q, query_wrapper. rewrite w_seq_eq, C19_bridge2_wrapper_check_fit.
+  destruct (u_fitted u); [|reflexivity]. cbn [negb]. unfold Wr.py_instance_query, Wr.on_instance. cbn [fst snd].
+  destruct (u_instance u) as [s|] eqn:EI; [|reflexivity].
+  specialize (H s n g EI). unfold run_q in H. revert H.
+  destruct (py_call_query name (i_query I name) (s, RsGlobal g)) as [[s' src'] r]. intro H. rewrite <- H. reflexivity.
+Qed.
+
+Theorem C19_bridge2_wrapper_query_pdf : forall O I u n g, ok_on u I "probability_density" QPdf ->
+  wrun_q (Wr.gen_Univariate_probability_density O I) u g = query_wrapper u QPdf n g.
+Proof. intros. apply wrapper_delegate. assumption. Qed.
+Theorem C19_bridge2_wrapper_query_cdf : forall O I u n g, ok_on u I "cumulative_distribution" QCdf ->
+  wrun_q (Wr.gen_Univariate_cumulative_distribution O I) u g = query_wrapper u QCdf n g.
+Proof. intros. apply wrapper_delegate. assumption. Qed.
+Theorem C19_bridge2_wrapper_query_ppf : forall O I u n g, ok_on u I "percent_point" QPpf ->
+  wrun_q (Wr.gen_Univariate_percent_point O I) u g = query_wrapper u QPpf n g.
+Proof. intros. apply wrapper_delegate. assumption. Qed.
+(* `if self._instance:` -- with _instance None the fallback np.log(self.probability_density(X)) raises the same AttributeError *)
+Theorem C19_bridge2_wrapper_query_logpdf : forall O I u n g, ok_on u I "log_probability_density" QLogPdf ->
+  wrun_q (Wr.gen_Univariate_log_probability_density O I) u g = query_wrapper u QLogPdf n g.
+Proof.
+  intros O I u n g H. destruct (u_instance u) as [s|] eqn:EI.
+  - rewrite <- (wrapper_delegate I "log_probability_density" QLogPdf u n g H).
+    unfold wrun_q, Wr.gen_Univariate_log_probability_density. rewrite !w_seq_eq, C19_bridge2_wrapper_check_fit.
+    destruct (u_fitted u); [|reflexivity]. rewrite w_bind_eq. unfold Wr.py_instance_truthy. cbn [fst snd]. rewrite EI. reflexivity.
+  - unfold wrun_q, query_wrapper, Wr.gen_Univariate_log_probability_density. rewrite w_seq_eq, C19_bridge2_wrapper_check_fit.
+    destruct (u_fitted u) eqn:EF; [|reflexivity]. rewrite w_bind_eq. unfold Wr.py_instance_truthy. cbn [fst snd negb]. rewrite EI.
+    cbv beta iota. rewrite w_bind_eq. unfold Wr.py_call_query, Wr.gen_Univariate_probability_density.
+    rewrite w_seq_eq, C19_bridge2_wrapper_check_fit, EF. unfold Wr.py_instance_query, Wr.on_instance. cbn [fst snd]. rewrite EI. reflexivity.
+Qed.
+
+(* the generated class-level queries of the instance: probability_density / log_probability_density for every family,
+   cumulative_distribution / percent_point as inherited from ScipyModel (GaussianKDE's own two are not generated) *)
+Definition gen_qi (O : oracles) (name : string) : M obs :=
+  if String.eqb name "probability_density" then gen_query_probability_density O
+  else if String.eqb name "log_probability_density" then gen_query_log_probability_density O
+  else if String.eqb name "cumulative_distribution" then gen_ScipyModel_cumulative_distribution
+  else gen_ScipyModel_percent_point.
+Theorem C19_bridge2_gen_qi_pdf : forall O u, ok_on u (gen_inst O (gen_qi O)) "probability_density" QPdf.
+Proof. intros O u s n g _. apply C19_bridge2_query_pdf. Qed.
+Theorem C19_bridge2_gen_qi_logpdf : forall O u, ok_on u (gen_inst O (gen_qi O)) "log_probability_density" QLogPdf.
+Proof. intros O u s n g _. apply C19_bridge2_query_logpdf. Qed.
+Theorem C19_bridge2_gen_qi_cdf : forall O u, (forall s, u_instance u = Some s -> s_fam s <> FKDE) ->
+  ok_on u (gen_inst O (gen_qi O)) "cumulative_distribution" QCdf.
+Proof. intros O u H s n g E. apply C19_bridge_query_cdf. exact (H s E). Qed.
+Theorem C19_bridge2_gen_qi_ppf : forall O u, (forall s, u_instance u = Some s -> s_fam s <> FKDE) ->
+  ok_on u (gen_inst O (gen_qi O)) "percent_point" QPpf.
+Proof. intros O u H s n g E. apply C19_bridge_query_ppf. exact (H s E). Qed.
+
+(* ---- to_dict of a wrapper: Univariate.to_dict around the wrapper's _get_params ---- *)
+Theorem C19_bridge2_wrapper_to_dict : forall O qi u src, exists r,
+  Wr.gen_Univariate_to_dict (Wr.gen_Univariate__get_params O (gen_inst O qi)) (u, src) = ((u, src), r)
+  /\ dict_result r = to_dict_wrapper u.
+Proof.
+  intros O qi u src. unfold Wr.gen_Univariate_to_dict, to_dict_wrapper.
+  rewrite w_seq_eq, C19_bridge2_wrapper_check_fit.
+  destruct (u_fitted u); [|eexists; split; reflexivity]. cbn [negb]. rewrite w_bind_eq.
+  unfold Wr.gen_Univariate__get_params, Wr.py_instance__get_params, Wr.on_instance. cbn [fst snd gen_inst i_get_params].
+  destruct (u_instance u) as [s|] eqn:EI; [|eexists; split; reflexivity].
+  rewrite C19_bridge_get_params. rewrite (setu_instance_same u s EI).
+  destruct (s_params s) as [p|]; [|eexists; split; reflexivity].
+  rewrite w_bind_eq, w_bind_eq. unfold Wr.py_self_class_is, Wr.py_qualified_name__instance, Wr.m_ret, py_setitem.
+  cbn [fst snd String.eqb Ascii.eqb Bool.eqb]. rewrite EI. eexists; split; reflexivity.
+Qed.
+
+(* ---- sample under @random_state: a seeded wrapper installs its own stream; the instance's sample (itself under
+        @random_state) draws from whatever is installed unless the instance has a stream of its own ---- *)
+Definition own_view (seed : Z) (o : obs) : result obs :=
+  match o with
+  | ObsErr e => Err e
+  | ObsDraw what m (RsGlobal d) => Ok (ObsDraw what m (RsOwn (seed, d)))
+  | o' => Ok o'
+  end.
+Lemma query_sample_own : forall O s n seed ds,
+  py_call_query "sample" (gen_query_sample O n) (s, RsOwn (seed, ds))
+  = let '(s', ds', o) := query_scipy s QSample n ds in ((s', RsOwn (seed, ds')), own_view seed o).
+Proof.
+  intros O s n seed ds. unfold py_call_query, query_scipy. cbn [fst snd ov_slot String.eqb Ascii.eqb Bool.eqb overridden].
+  destruct (ov_sample (s_ov s)); [reflexivity|].
+  assert (HC : class_query s QSample =
+               if negb (s_fitted s) then ObsErr NotFitted
+               else match s_fam s with
+                    | FKDE => match s_model s with Some m => ObsKde QSample m None | None => ObsErr AttributeErr end
+                    | f => match s_params s with Some p => ObsScipy QSample f p | None => ObsErr TypeErr end
+                    end)
+    by (unfold class_query; destruct (s_fitted s); [|reflexivity]; destruct (s_fam s); reflexivity).
+  rewrite HC. clear HC.
+  destruct (family_eq_dec (s_fam s) FKDE) as [EF|NF].
+  - unfold gen_query_sample. rewrite dispatch_default_kde by exact EF. rewrite EF.
+    unfold gen_GaussianKDE_sample, py_random_state. cbn [fst snd].
+    destruct (s_rs s) as [[seed2 ds2]|] eqn:ER; rewrite m_seq_eq, C19_bridge_check_fit;
+      (destruct (s_fitted s); cbn [negb fst snd]; [|try (rewrite <- ER, set_rs_same); reflexivity]);
+      unfold py_kde_model_resample; cbn [fst snd];
+      (destruct (s_model s); cbn [fst snd push_draw]; [reflexivity|try (rewrite <- ER, set_rs_same); reflexivity]).
+  - unfold gen_query_sample. rewrite dispatch_default_plain by exact NF.
+    unfold gen_ScipyModel_sample, py_random_state. cbn [fst snd].
+    destruct (s_rs s) as [[seed2 ds2]|] eqn:ER; rewrite m_seq_eq, C19_bridge_check_fit;
+      (destruct (s_fitted s); cbn [negb fst snd]; [|try (rewrite <- ER, set_rs_same); reflexivity]);
+      unfold py_model_rvs; cbn [fst snd];
+      (destruct (s_params s); cbn [fst snd push_draw];
+       [destruct (s_fam s); try reflexivity; congruence
+       |try (rewrite <- ER, set_rs_same); destruct (s_fam s); try reflexivity; congruence]).
+Qed.
+
+Theorem C19_bridge2_wrapper_sample : forall O qi u n g,
+  wrun_q (Wr.gen_Univariate_sample O (gen_inst O qi) n) u g = query_wrapper_rs u QSample n g.
+Proof.
+  intros O qi u n g. unfold wrun_q, Wr.gen_Univariate_sample, Wr.py_random_state, query_wrapper_rs, query_wrapper. cbn [fst snd].
+  destruct (u_rs u) as [[seed ds]|] eqn:ER.
+  - rewrite w_seq_eq, C19_bridge2_wrapper_check_fit.
+    destruct (u_fitted u); cbn [negb fst snd]; [|destruct u; cbn in ER; subst; reflexivity].
+    unfold Wr.py_instance_sample, Wr.on_instance. cbn [fst snd gen_inst i_sample].
+    destruct (u_instance u) as [s|] eqn:EI; [|destruct u; cbn in ER; subst; reflexivity].
+    rewrite query_sample_own. destruct (query_scipy s QSample n ds) as [[s' ds'] o]. cbn [fst snd].
+    destruct o as [| | |what m [r|d]| | | | | | |]; reflexivity.
+  - rewrite w_seq_eq, C19_bridge2_wrapper_check_fit.
+    destruct (u_fitted u); cbn [negb fst snd]; [|reflexivity].
+    unfold Wr.py_instance_sample, Wr.on_instance. cbn [fst snd gen_inst i_sample].
+    destruct (u_instance u) as [s|] eqn:EI; [|reflexivity].
+    pose proof (C19_bridge2_query_sample O s n g) as H. unfold run_q in H. revert H.
+    destruct (py_call_query "sample" (gen_query_sample O n) (s, RsGlobal g)) as [[s' src'] r]. intro H. rewrite <- H. reflexivity.
+Qed.
+
+(* ===================================================================================================== *)
+Print Assumptions C19_bridge2_hook_is_constant.
+Print Assumptions C19_bridge2_hook_extract_constant.
+Print Assumptions C19_bridge2_hook_fit_constant.
+Print Assumptions C19_bridge2_kde_get_model.
+Print Assumptions C19_bridge2_hook_fit.
+Print Assumptions C19_bridge2_scipy_fit.
+Print Assumptions C19_gen2_fit_pure_scipy_full.
+Print Assumptions C19_gen2_fit_pure_plain.
+Print Assumptions C19_bridge2_set_params.
+Print Assumptions C19_bridge2_from_dict.
+Print Assumptions C19_bridge2_query_pdf.
+Print Assumptions C19_bridge2_query_logpdf.
+Print Assumptions C19_bridge2_query_sample.
+Print Assumptions C19_bridge2_wrapper_check_fit.
+Print Assumptions C19_bridge2_scipy_fit_full.
+Print Assumptions C19_bridge2_wrapper_fit.
+Print Assumptions C19_bridge2_wrapper_query_pdf.
+Print Assumptions C19_bridge2_wrapper_query_cdf.
+Print Assumptions C19_bridge2_wrapper_query_ppf.
+Print Assumptions C19_bridge2_wrapper_query_logpdf.
+Print Assumptions C19_bridge2_gen_qi_pdf.
+Print Assumptions C19_bridge2_gen_qi_logpdf.
+Print Assumptions C19_bridge2_gen_qi_cdf.
+Print Assumptions C19_bridge2_gen_qi_ppf.
+Print Assumptions C19_bridge2_wrapper_to_dict.
+Print Assumptions C19_bridge2_wrapper_sample.
